@@ -243,11 +243,17 @@ class NodeExpandedDiGraph(nx.DiGraph):
         return self._edges_to_ignore
     
     def get_expanded_additional_starts(self, additional_starts):
-        
+        for node in additional_starts:
+            if node not in self.original_G.nodes:
+                utils.logger.error(f"{__name__}: Additional start node {node} is not a node of the original graph.")
+                raise ValueError(f"Additional start node {node} is not a node of the original graph.")
         return [self.get_expanded_edge(node)[0] for node in additional_starts]
     
     def get_expanded_additional_ends(self, additional_ends):
-        
+        for node in additional_ends:
+            if node not in self.original_G.nodes:
+                utils.logger.error(f"{__name__}: Additional end node {node} is not a node of the original graph.")
+                raise ValueError(f"Additional end node {node} is not a node of the original graph.")
         return [self.get_expanded_edge(node)[1] for node in additional_ends]
     
     def get_expanded_subpath_constraints(self, subpath_constraints):
